@@ -25,6 +25,7 @@ func rulesC04(c *Ctx, r *Report) {
 	r.floor("G5-lines", rulesLineChain(c, r, "formats/bed"), 1, "ReadString line reader of bed")
 	rulesPassAllFor(c, r, "formats/bed", 2)
 	rulesNoBufferedPkg(c, r, "formats/bed")
+	rulesBedSkip(c, r)
 	rulesNumWidth(c, r, "formats/bed")
 }
 
@@ -398,6 +399,41 @@ func rulesBedParserColumns(c *Ctx, r *Report) {
 			fmt.Sprintf("the store into %s is controlled by the emptiness test of column %d, its own column", bedFields[j], j-1),
 			fmt.Sprintf("the store into %s is controlled by the emptiness test of column(s) [%s], not of its own column %d: the field is parsed or skipped depending on a different column", bedFields[j], strings.Join(got, ","), j-1))
 	}
+	// ItemRGB: each component accepts exactly 0..255
+	instrs(f, func(in ssa.Instruction) {
+		st, ok := in.(*ssa.Store)
+		if !ok {
+			return
+		}
+		ia, ok := st.Addr.(*ssa.IndexAddr)
+		if !ok {
+			return
+		}
+		fa, ok := ia.X.(*ssa.FieldAddr)
+		if !ok || fa.X != ssa.Value(rec) || fa.Field >= len(bedFields) || bedFields[fa.Field] != "ItemRGB" {
+			return
+		}
+		cv, ok := st.Val.(*ssa.Convert)
+		if !ok {
+			r.undecided("G4b", where, "RGB component range", c.pos(st.Pos()), "the stored component is not a conversion of a parsed number")
+			return
+		}
+		src := cv.X
+		if ex, ok := src.(*ssa.Extract); ok && ex.Index == 0 {
+			if cl, ok := ex.Tuple.(*ssa.Call); ok && fnIs(cl.Call.StaticCallee(), "strconv", "ParseUint") {
+				b, _ := cInt(constVal(cl.Call.Args[2]))
+				r.check(b == 8, "G4b", where, "RGB component range", c.pos(st.Pos()), "components are parsed with ParseUint(_, _, 8): exactly 0..255 is accepted", fmt.Sprintf("components are parsed with ParseUint bitSize %d and then cut to a byte", b))
+				return
+			}
+		}
+		dom := []int64{-1, 0, 1, 127, 128, 254, 255, 256}
+		reach := partitionFlow(f, func(v ssa.Value) bool { return v == src }, dom)
+		got := reach[st.Block()].sorted()
+		want := []int64{0, 1, 127, 128, 254, 255}
+		r.check(fmt.Sprint(got) == fmt.Sprint(want), "G4b", where, "RGB component range", c.pos(st.Pos()),
+			"of the representative values -1, 0, 1, 127, 128, 254, 255, 256 exactly those in 0..255 reach the store: every byte value is accepted, nothing else",
+			fmt.Sprintf("the values that reach the store into ItemRGB are %v of the representatives -1..256, want exactly 0..255: some component values the writer prints are rejected, or out-of-range values are truncated", got))
+	})
 	r.floor("G4b-guard", nGuards, 4, "optional numeric/list fields whose parse is guarded by a non-empty test")
 	// accepting return only with 3..12 fields
 	isLen := func(v ssa.Value) bool { return s.expr(v).String() == "builtin:len(P0)" }
@@ -544,4 +580,85 @@ func rulesWholeLines(c *Ctx, r *Report, rel string, opts ...string) {
 	if ns == 0 {
 		r.holds("LINE-WHOLE", rel, "no bounded ReadSlice", "", "no token is read with a buffer-bounded ReadSlice: tokens of any length are read whole")
 	}
+}
+
+// rulesBedSkip (BED-SKIP): whether a line is skipped or parsed depends on the line's own text only — empty, or
+// starting with '#' — plus the read error and the field-count bookkeeping; never on what a field holds.
+func rulesBedSkip(c *Ctx, r *Report) {
+	rd := c.role("bed.read")
+	pl := c.role("bed.parseLine")
+	where := "formats/bed.(*reader).read"
+	if rd == nil || pl == nil {
+		r.undecided("BED-SKIP", where, "anchor", "", "read or parseLine not found")
+		return
+	}
+	calls := staticCallsTo(rd, pl)
+	if len(calls) != 1 {
+		r.undecided("BED-SKIP", where, "parse call", c.pos(rd.Pos()), fmt.Sprintf("expected one parseLine call, found %d", len(calls)))
+		return
+	}
+	s := newSymb(rd)
+	_, atoms := guardOfFull(s, calls[0].Block(), nil)
+	// the line text: what strings.Split receives
+	text := ""
+	instrs(rd, func(in ssa.Instruction) {
+		if cl, ok := in.(*ssa.Call); ok && fnIs(cl.Call.StaticCallee(), "strings", "Split") && cl == calls[0].Call.Args[0] {
+			text = s.expr(cl.Call.Args[0]).String()
+		}
+	})
+	if text == "" {
+		r.undecided("BED-SKIP", where, "line text", c.pos(calls[0].Pos()), "parseLine does not receive strings.Split(text, …) directly")
+		return
+	}
+	var bad []string
+	sawEmpty, sawHash := false, false
+	for _, a := range atoms {
+		a = strings.TrimPrefix(a, "!")
+		switch {
+		case a == "(\"\" == "+text+")":
+			sawEmpty = true
+		case a == "(35 == "+text+"[0])":
+			sawHash = true
+		case strings.Contains(a, "ReadString(") && (strings.Contains(a, "nil") || strings.Contains(a, "G:EOF")):
+			// the read error
+		case strings.Contains(a, "builtin:len(call:strings.Split("+text) || strings.Contains(a, "P0.f1"):
+			// field-count bookkeeping (r.n)
+		default:
+			// a predicate helper applied to the whole line text
+			okHelper := false
+			for _, g := range c.calleesIn(rd) {
+				if g.Blocks == nil || !c.inModule(g) || len(g.Params) != 1 || !effectFree(g, 0) {
+					continue
+				}
+				if a != "call:"+fname(g)+"("+text+")" {
+					continue
+				}
+				gs := newSymb(g)
+				he, hh, other := false, false, false
+				instrs(g, func(in ssa.Instruction) {
+					bo, ok := in.(*ssa.BinOp)
+					if !ok {
+						return
+					}
+					switch gs.expr(bo).String() {
+					case "(\"\" == P0)", "(0 == builtin:len(P0))", "(0 < builtin:len(P0))":
+						he = true
+					case "(35 == P0[0])":
+						hh = true
+					default:
+						other = true
+					}
+				})
+				if he && hh && !other {
+					okHelper, sawEmpty, sawHash = true, true, true
+				}
+			}
+			if !okHelper {
+				bad = append(bad, a)
+			}
+		}
+	}
+	r.check(len(bad) == 0 && sawEmpty && sawHash, "BED-SKIP", where, "what decides skipping", c.pos(calls[0].Pos()),
+		"a line reaches the parser unless it is empty or starts with '#' (tested on the whole line), subject only to the read error and the field count",
+		fmt.Sprintf("whether a line is parsed also depends on %v (empty-line test on the line: %v, '#' test on the line: %v): records with particular field contents (e.g. an empty first column) are dropped silently", bad, sawEmpty, sawHash))
 }
